@@ -162,6 +162,16 @@ fn check_printed_pair(sk_text: &str, pk_text: &str) -> Result<(), Fail> {
             return Err(Fail::new("handshake_failed", format!("a neighbouring entry of the trusted-key list stopped working with {:?} at position {}", pk_text, pos)).with("role", "trusted_in_list"));
         }
     }
+    // (6) the node's OWN public key listed among its trusted keys next to a foreign one (a group that shares one key pair and
+    // also admits an outsider): two nodes with this key pair still trust each other
+    for pos in 0..2usize {
+        let mut list = vec![keys[2].1.clone()];
+        list.insert(pos, pk_text.to_string());
+        let grp = CryptoConfig { private_key: Some(sk_text.to_string()), trusted_keys: list, ..base.clone() };
+        if !try_handshake(&grp, &grp)? {
+            return Err(Fail::new("handshake_failed", format!("two nodes with key pair {:?} that list their own public key at position {} of their trusted keys do not trust each other", pk_text, pos)).with("role", "own_key_in_trusted_list"));
+        }
+    }
     Ok(())
 }
 
